@@ -1,13 +1,13 @@
 """C02 - every proof the toolkit generates is accepted by the checker (spec machine, Rust verify(), both optimise settings)."""
 import random
-import pi2v, funcs, gen, lem, exprs
+import pi2v, funcs, gen, lem, exprs, pexp
 from pi2v import tkey
 
 C02_CLAUSES = ('not-accepted', 'machine-rejects')
 SHIPPED = ['propositional', 'substitution', 'small_theory', 'definedness', 'kore_lemmas', 'tautology']
 
 
-def collect(rng, quick):
+def collect(rng, quick, v=None):
     """module traces: shipped modules, library-lemma applications, DSL recipes, import graphs"""
     traces = gen.module_traces(SHIPPED)
     for t in traces:
@@ -20,6 +20,8 @@ def collect(rng, quick):
         t['spec'] = {'entry': t['name'], 'args': t['args']}
         traces.append(t)
     mods = exprs.edge_modules(rng, 10 if quick else 150) + exprs.graph_modules(rng) + exprs.big_modules([40] if quick else [40, 130, 200])
+    if v is not None:
+        mods += pexp.modules(v, rng, 40 if quick else 400)      # proofs enumerated by the model (MC_ProofExp)
     ereqs = [{'cmd': 'expr', 'module': m, 'interps': False, 'traces': [False, True]} for m in mods]
     eres = lem.run_applications(ereqs)
     built = [(q, r) for q, r in zip(ereqs, eres) if r.get('built')]
@@ -42,7 +44,7 @@ def run(v, tier, clauses=C02_CLAUSES, tag='C02'):
     rng = random.Random(pi2v.SEED)
     v.assumptions += ['a module counts as generated when the toolkit builds and executes it without raising; modules the toolkit itself refuses are not cases',
                       'accepted = the specification machine accepts the three emitted files with no claim left AND the real verify() accepts them']
-    traces = collect(rng, quick)
+    traces = collect(rng, quick, v)
     # a module the toolkit executed without error but could not be traced to the end is itself a finding (error != None)
     v.cov['modules'] = len(traces)
     v.sample({'src': traces[0]['src'], 'optimize': traces[0]['optimize'], 'events': len(traces[0]['events'])})
